@@ -48,6 +48,7 @@ type runner struct {
 	failCount  map[string]int // failing cases per signature (all of them)
 	attempts   map[string]int // confirmation attempts per signature
 	reported   map[string]int // confirmed + recorded per signature
+	okCount    map[string]int // passing non-trivial executions of interest (C09-STATS)
 	modelNoted bool
 }
 
@@ -77,7 +78,7 @@ func TestCheck(t *testing.T) {
 		"time-sorted searches need the in-memory corpus: the index-only handler rejects these sorts, so only corpus-backed handlers are in scope",
 		"worlds are static while a walk is in progress (no blobs arrive between pages)",
 	}
-	r := &runner{res: res, failCount: map[string]int{}, attempts: map[string]int{}, reported: map[string]int{}}
+	r := &runner{res: res, failCount: map[string]int{}, attempts: map[string]int{}, reported: map[string]int{}, okCount: map[string]int{}}
 	if rp, ok := vk.ReplayFile(); ok {
 		r.replay(rp)
 		res.Write()
@@ -123,6 +124,14 @@ func TestCheck(t *testing.T) {
 	sort.Strings(sigs)
 	for _, s := range sigs {
 		fmt.Fprintf(os.Stderr, "C09-STATS shard=%s failing-cases=%d signature=%s\n", res.Shard, r.failCount[s], s)
+	}
+	var oks []string
+	for s := range r.okCount {
+		oks = append(oks, s)
+	}
+	sort.Strings(oks)
+	for _, s := range oks {
+		fmt.Fprintf(os.Stderr, "C09-STATS shard=%s ok-cases=%d what=%s\n", res.Shard, r.okCount[s], s)
 	}
 	res.Write()
 }
